@@ -61,6 +61,28 @@ func checkC04Pooled(c c04Case) *evid.Fail {
 }
 
 func checkC04With(t tokenizers.ITokenizer, c c04Case) *evid.Fail {
+	// the instance has just been used on the very same text with options on (an option set and a setter order derived
+	// from the text); the caller then switches every option off: what follows is the option-free stream
+	sum := len(c.Input)
+	for i := 0; i < len(c.Input); i++ {
+		sum = sum*31 + int(c.Input[i])
+	}
+	if sum < 0 {
+		sum = -sum
+	}
+	if sum%3 != 0 {
+		if g := guard(func() {
+			setOptionsRotated(t, 1+sum%127, (sum/127)%7)
+			if sum%2 == 0 {
+				t.TokenizeBuffer(c.Input)
+			} else {
+				t.TokenizeStreamToStrings(newBudgetScanner(c.Input))
+			}
+			setOptionsRotated(t, 0, (sum/889)%7)
+		}); g != nil {
+			return nil // a failure with options on is C15's / C03's subject
+		}
+	}
 	setOptions(t, 0)
 	toks, f := tokenizeCapped(t, c.Input, 0)
 	if f != nil {
